@@ -20,6 +20,7 @@ def handle (line : String) : String :=
   | ["lex", src] => "ok " ++ lexOp src
   | ["exec", toks, tb] => "ok " ++ execOp toks (parseInt tb)
   | ["compile", prog] => "ok " ++ compileOp prog
+  | ["printk", prog] => "ok " ++ printkOp prog
   | ["generate", tb, pf, tracks] =>
       "ok bin=" ++ hex (generateSong (parseInt tb) (parseInt pf) (parseTracks tracks))
   | ["spec.c01", bin, n, tb] => "ok " ++ specC01 (unhex bin) (parseNat n) (parseNat tb)
